@@ -147,6 +147,70 @@ theorem maxSample_of_first_max (o : SOps V) (pre post : List (Sample V)) (b : Sa
     simp only [maxStep, this, if_true]
     exact foldl_stays o b post hpost
 
+/-! ## the first-maximum invariant for any key (generalises `BestOf` of `Lemmas/SamplesConv.lean`) -/
+
+/-- the incumbent of a "keep the first best" loop over `key`: the first element seen that none exceeds -/
+def PickedOf {α} (lt : V → V → Bool) (key : α → V) (seen : List α) : Option α → Prop
+  | none => seen = []
+  | some b => ∃ pre post, seen = pre ++ b :: post ∧ (∀ s ∈ pre, lt (key s) (key b) = true) ∧
+      (∀ s ∈ post, lt (key b) (key s) = false)
+
+theorem pickedOf_step {α} (lt : V → V → Bool) (key : α → V)
+    (htr : ∀ a b c, lt a b = true → lt b c = true → lt a c = true)
+    (hnt : ∀ a b c, lt a c = true → lt a b = true ∨ lt b c = true)
+    (seen : List α) (acc : Option α) (s : α) (h : PickedOf lt key seen acc) :
+    PickedOf lt key (seen ++ [s]) (pickStep (fun a b => lt (key a) (key b)) acc s) := by
+  cases acc with
+  | none =>
+    simp only [PickedOf] at h
+    subst h
+    exact ⟨[], [], by simp, by simp, by simp⟩
+  | some b =>
+    obtain ⟨pre, post, hs, hpre, hpost⟩ := h
+    simp only [pickStep]
+    by_cases hlt : lt (key b) (key s) = true
+    · simp only [hlt, if_true]
+      refine ⟨seen, [], by simp, ?_, by simp⟩
+      intro x hx
+      rw [hs] at hx
+      rcases List.mem_append.1 hx with hx | hx
+      · exact htr _ _ _ (hpre x hx) hlt
+      · rcases List.mem_cons.1 hx with rfl | hx
+        · exact hlt
+        · rcases hnt _ (key x) _ hlt with h1 | h1
+          · rw [hpost x hx] at h1; exact absurd h1 (by simp)
+          · exact h1
+    · have hf : lt (key b) (key s) = false := by simpa using hlt
+      simp only [hf]
+      refine ⟨pre, post ++ [s], by simp [hs], hpre, ?_⟩
+      intro x hx
+      rcases List.mem_append.1 hx with hx | hx
+      · exact hpost x hx
+      · simp at hx; subst hx; exact hf
+
+theorem pickedOf_foldl {α} (lt : V → V → Bool) (key : α → V)
+    (htr : ∀ a b c, lt a b = true → lt b c = true → lt a c = true)
+    (hnt : ∀ a b c, lt a c = true → lt a b = true ∨ lt b c = true) :
+    ∀ (l seen : List α) (acc : Option α), PickedOf lt key seen acc →
+      PickedOf lt key (seen ++ l) (l.foldl (pickStep (fun a b => lt (key a) (key b))) acc)
+  | [], seen, acc, h => by simpa using h
+  | s :: l, seen, acc, h => by
+    have := pickedOf_foldl lt key htr hnt l (seen ++ [s]) _ (pickedOf_step lt key htr hnt seen acc s h)
+    simpa using this
+
+/-- what a "keep the first best" loop over `key` returns is the first maximum of `key` (strict weak order) -/
+theorem pickFirst_first_max {α} (lt : V → V → Bool) (key : α → V)
+    (htr : ∀ a b c, lt a b = true → lt b c = true → lt a c = true)
+    (hnt : ∀ a b c, lt a c = true → lt a b = true ∨ lt b c = true)
+    (l : List α) (b : α) (h : pickFirst (fun a b => lt (key a) (key b)) l = some b) :
+    ∃ pre post, l = pre ++ b :: post ∧ (∀ s ∈ pre, lt (key s) (key b) = true) ∧
+      (∀ s ∈ post, lt (key b) (key s) = false) := by
+  have := pickedOf_foldl lt key htr hnt l [] none rfl
+  simp only [List.nil_append] at this
+  unfold pickFirst at h
+  rw [h] at this
+  exact this
+
 /-! ## flattenings -/
 
 theorem column_map {α β} (f : α → β) (j : Nat) (m : List (List α)) :
